@@ -108,8 +108,9 @@ Definition d18_guard (ctxs : list ctxv) (fresh : list Z) (a b : cc) : bool :=
 Fixpoint nodupb (l : list nat) : bool :=
   match l with [] => true | x :: l' => negb (mem x l') && nodupb l' end.
 
-(* what is assumed of a library-derived concept: duplicate-free object indexes of its context; a
-   non-monotone formal concept is a closed set *)
+(* what is assumed of a library-derived concept: duplicate-free object indexes of its context, listed
+   in any order (close_by_one_objectwise lists them in discovery order); a non-monotone formal
+   concept is a closed set *)
 Definition derived_ok (ctxs : list ctxv) (c : cc) : bool :=
   match nth_error ctxs (cc_ctx c) with
   | None => false
@@ -122,11 +123,6 @@ Definition derived_ok (ctxs : list ctxv) (c : cc) : bool :=
          | MCtx _ _ _ _ => cc_pat c
          end
   end.
-
-(* finding D81 (guard_index 2): a FormalConcept compares and hashes its extent as a TUPLE, so the
-   order / equality / hash laws need the extent stored in increasing order; close_by_one_objectwise
-   stores it in discovery order.  (PatternConcept sorts / ignores the order.) *)
-Definition canonical (c : cc) : bool := cc_pat c || increasingb (cc_ext c).
 
 Definition res_at (res : list (list nat)) (n i j k : nat) : nat := nth k (nth (i * n + j) res []) 9.
 
@@ -149,7 +145,6 @@ Definition cmp_check (ctxs : list ctxv) (fresh : list Z) (cs : list cc) (res : l
                    firstn_eqb 6 (row i j) (spec_row ctxs (cat i) (cat j))
                    && (negb (Nat.eqb (nth 0 (row i j) 9) 1) || Nat.eqb (nth 6 (row i j) 9) 1) in
   let guard1 p := let '(i, j) := p in d18_guard ctxs fresh (cat i) (cat j) in
-  let guard2 p := let '(i, j) := p in canonical (cat i) && canonical (cat j) in
   let le i j := res_at res n i j 2 in
   let eq i j := res_at res n i j 0 in
   (* partial-order laws read off the implementation's own answers, over the concepts [use] *)
@@ -164,11 +159,10 @@ Definition cmp_check (ctxs : list ctxv) (fresh : list Z) (cs : list cc) (res : l
   let pre := forallb (derived_ok ctxs) cs && Nat.eqb (length res) (n * n)
              && Nat.eqb (length fresh) (length ctxs) in
   let ok_all := pre && laws (fun _ => true) && forallb ok_pair pairs in
-  let ok_guarded := pre && laws (fun i => canonical (cat i))
-                    && forallb (fun p => negb (guard1 p && guard2 p) || ok_pair p) pairs in
+  let ok_guarded := pre && laws (fun _ => true)
+                    && forallb (fun p => negb (guard1 p) || ok_pair p) pairs in
   let g1_all := forallb guard1 pairs in
-  let g2_all := forallb canonical cs in
-  let k := if negb g2_all then 20 else if negb g1_all then 10 else 0 in
+  let k := if negb g1_all then 10 else 0 in
   if ok_all then (if same then 0 else 1 + k)
   else if ok_guarded && negb (Nat.eqb k 0) then k + code_of same false
   else code_of same false.
